@@ -71,20 +71,25 @@ class C03(Check):
         cssutils = quiet()
         try:
             rng = ctx.sub_rng('c03')
-            self.corr_patterns(ctx, cssutils, rng)
-            self.corr_functions(ctx, cssutils, rng)
-            self.corr_safe(ctx, cssutils, rng)
-            self.corr_image(ctx, cssutils, rng)
-            S.init(cssutils)
-            self.parser = cssutils.CSSParser(fetcher=lambda url: (None, ''))
-            from cssutils import tokenize2
-            self.tk = tokenize2.Tokenizer()
-            self.oracle_corpus(ctx, cssutils)
-            self.slots(ctx, cssutils, rng)
-            self.oracle_composite(ctx, cssutils, rng)
-            self.oracle_shipped(ctx, cssutils)
+            ctx.phase(self.corr_patterns, ctx, cssutils, rng)
+            ctx.phase(self.corr_functions, ctx, cssutils, rng)
+            ctx.phase(self.corr_safe, ctx, cssutils, rng)
+            self.setup_impl(cssutils)
+            ctx.phase(self.corr_image, ctx, cssutils, rng)
+            ctx.phase(self.oracle_corpus, ctx, cssutils)
+            ctx.phase(self.oracle_structural, ctx, cssutils, rng)
+            ctx.phase(self.oracle_namespaces, ctx, cssutils, rng)
+            ctx.phase(self.slots, ctx, cssutils, rng)
+            ctx.phase(self.oracle_composite, ctx, cssutils, rng)
+            ctx.phase(self.oracle_shipped, ctx, cssutils)
         finally:
             cssutils.ser.prefs.useDefaults()
+
+    def setup_impl(self, cssutils):
+        from cssutils import tokenize2
+        S.init(cssutils)
+        self.parser = cssutils.CSSParser(fetcher=lambda url: (None, ''))
+        self.tk = tokenize2.Tokenizer()
 
     # -- (1) generated patterns vs compiled patterns vs hand recognisers ------------------------------
     def compiled(self, cssutils):
@@ -332,11 +337,27 @@ class C03(Check):
     CLAUSE_DOM = 'parsing the serialisation gives an equivalent DOM (rules, selectors, declarations, values, ' \
                  'priorities, media, import targets, comments)'
 
-    def roundtrip(self, cssutils, sheet):
-        """(t1, t2, p1, p2) of a DOM. The only non-default preference is resolveVariables=False: with the default the
-        serializer replaces var() by the variable's value and drops @variables rules, which is lossy by design."""
+    # preference variants for the reparse-equivalence clause: (what is set, rule kinds the preference is documented
+    # to leave out of the output, so they are left out of both projections)
+    VARIANTS = {
+        'default': (None, ()),
+        'keepUsedNamespaceRulesOnly': ('usedns', ('namespace',)),
+        'minified': ('minified', ('namespace', 'comment', 'unknown')),
+    }
+
+    def roundtrip(self, cssutils, sheet, variant='default'):
+        """(t1, t2, p1, p2) of a DOM. Besides the variant, the only non-default preference is resolveVariables=False:
+        with the default the serializer replaces var() by the variable's value and drops @variables rules, which is
+        lossy by design."""
+        how, drop = self.VARIANTS[variant]
         try:
+            if how == 'minified':
+                cssutils.ser.prefs.useMinified()
+            elif how == 'usedns':
+                cssutils.ser.prefs.keepUsedNamespaceRulesOnly = True
             cssutils.ser.prefs.resolveVariables = False
+            S.MODE['minified'] = how == 'minified'
+            S.MODE['drop'] = drop
             with time_limit(30):
                 t1 = sheet.cssText
                 s2 = self.parser.parseString(t1)
@@ -345,18 +366,24 @@ class C03(Check):
                 p2 = S.project(cssutils, s2)
             return t1, t2, p1, p2
         finally:
+            S.MODE['minified'] = False
+            S.MODE['drop'] = ()
             cssutils.ser.prefs.useDefaults()
 
-    def judge(self, ctx, cssutils, sheet, witness, regions, kind):
+    def judge(self, ctx, cssutils, sheet, witness, regions, kind, variant='default'):
         """the oracle proper: fixpoint + equivalent DOM; a failure inside a known region is attributed to it"""
-        t1, t2, p1, p2 = self.roundtrip(cssutils, sheet)
+        t1, t2, p1, p2 = self.roundtrip(cssutils, sheet, variant)
         fix_ok, dom_ok = t1 == t2, p1 == p2
+        if variant != 'default':
+            # only the reparse-equivalence clause is claimed under other preferences: e.g. a namespace used only by a rule
+            # that serialises to nothing is kept by keepUsedNamespaceRulesOnly the first time and dropped the second time
+            fix_ok = True
         ctx.count('oracle:%s:%s' % (kind, 'ok' if fix_ok and dom_ok else 'fails-in-known-region' if regions else 'FAILS'))
         if fix_ok and dom_ok:
             return True
         known = sorted(regions)[0] if regions else None
         detail = {'serialised': t1.decode('utf-8', 'replace')[:2000], 'reserialised': t2.decode('utf-8', 'replace')[:2000],
-                  'regions': sorted(regions)}
+                  'regions': sorted(regions), 'preferences': variant}
         if not dom_ok:
             for a, b in zip(p1, p2):
                 if a != b:
@@ -384,9 +411,22 @@ class C03(Check):
     def dom_regions(self, cssutils, sheet):
         """regions that are a property of the edited DOM rather than of a token"""
         regs = set()
+        kinds = [r.type for r in sheet.cssRules]
+        for i, k in enumerate(kinds):
+            if k == S.RULE.VARIABLES_RULE and any(x in (S.RULE.IMPORT_RULE, S.RULE.NAMESPACE_RULE) for x in kinds[i + 1:]):
+                # sheet.add() puts a @variables rule directly behind @charset; the parser then refuses what follows
+                regs.add('C03-variables-before-imports')
+        has_default = any(r.type == S.RULE.NAMESPACE_RULE and not r.prefix for r in sheet.cssRules)
 
         def walk(rules):
             for r in rules:
+                if r.type == S.RULE.STYLE_RULE and has_default:
+                    for sel in r.selectorList:
+                        for item in sel.seq:
+                            if isinstance(item.value, tuple) and item.value[0] is None and \
+                                    (item.type.endswith('type-selector') or item.type.endswith('universal')):
+                                # parsed before the sheet had a default namespace: written `|name`
+                                regs.add('C03-default-namespace-after-selectors')
                 if r.type == S.RULE.MEDIA_RULE:
                     walk(r.cssRules)
                 elif r.type == S.RULE.PAGE_RULE:
@@ -417,6 +457,39 @@ class C03(Check):
                 if entry.get('expect') == 'ok' and not ok and regs:
                     # a corpus entry that used to round trip must not hide inside a region
                     ctx.violate(self.CLAUSE_DOM, {'css': src, 'corpus': fn}, {'note': 'corpus entry expected to round trip'})
+
+    # -- structural edits by index: every rule kind inserted at every position of sheets with every rule kind ----
+    def oracle_structural(self, ctx, cssutils, rng):
+        full = ctx.tier_counts == 'thorough'
+        for src in S.structural_bases(rng, full):
+            n = self.parser.parseString(src).cssRules.length
+            for op in S.structural_ops(n):
+                with time_limit(30):
+                    sheet = self.parser.parseString(src)
+                    accepted = S.apply_op(cssutils, sheet, op)
+                ctx.case(key=('structural', src, tuple(op)), nontrivial=accepted, kind='structural:%s:%s' % (op[0], 'accepted' if accepted else 'refused'))
+                if not accepted:
+                    continue
+                witness = {'css': src, 'op': op, 'serialised_after_edit': sheet.cssText.decode('utf-8', 'replace')}
+                for variant in (('default', 'keepUsedNamespaceRulesOnly', 'minified') if full or op[0] != 'insertRule'
+                                else ('default',)):
+                    self.judge(ctx, cssutils, sheet, dict(witness, preferences=variant), self.dom_regions(cssutils, sheet),
+                               'structural', variant)
+
+    # -- namespaced selectors in every position x namespace operations x preference variants ------------
+    def oracle_namespaces(self, ctx, cssutils, rng):
+        full = ctx.tier_counts == 'thorough'
+        for src, op in S.namespace_cases(rng, full):
+            with time_limit(30):
+                sheet = self.parser.parseString(src)
+                accepted = S.apply_op(cssutils, sheet, op)
+            ctx.case(key=('ns', src, tuple(op)), nontrivial=True, kind='namespace:%s:%s' % (op[0], 'accepted' if accepted else 'refused'))
+            if not accepted:
+                continue
+            witness = {'css': src, 'op': op, 'serialised_after_edit': sheet.cssText.decode('utf-8', 'replace')}
+            for variant in ('default', 'keepUsedNamespaceRulesOnly', 'minified'):
+                self.judge(ctx, cssutils, sheet, dict(witness, preferences=variant), self.dom_regions(cssutils, sheet),
+                           'namespace', variant)
 
     # -- (3) one content item in one slot: what is stored, what is written, does it survive -------------
     SLOTS = {
@@ -572,6 +645,9 @@ class C03(Check):
             if ops:
                 witness = {'css': src, 'edits_applied': ops, 'serialised_after_edits': sheet.cssText.decode('utf-8', 'replace')}
             ok = self.judge(ctx, cssutils, sheet, witness, regs, 'sheet')
+            if ok:
+                self.judge(ctx, cssutils, sheet, dict(witness, preferences='keepUsedNamespaceRulesOnly'), regs, 'sheet-usedns',
+                           'keepUsedNamespaceRulesOnly')
             if ok or not regs:
                 self.setback(ctx, cssutils, sheet, regs, witness)
 
@@ -687,6 +763,8 @@ class C03(Check):
                 for step in op['path']:
                     obj = obj[step] if isinstance(step, int) else getattr(obj, step)
                 setattr(obj, op['attr'], op['value'])
+            if 'op' in w:
+                S.apply_op(cssutils, sheet, w['op'])
             t1, t2, p1, p2 = self.roundtrip(cssutils, sheet)
             return not (t1 == t2 and p1 == p2)
         finally:
@@ -700,7 +778,11 @@ class C03(Check):
         self.tk = tokenize2.Tokenizer()
         w = data.get('witness') or {}
         try:
-            if data.get('kind') == 'impl-violates' and 'css' in w and 'edits_applied' not in w and 'node' not in w:
+            if data.get('kind') == 'impl-violates' and 'op' in w:
+                sheet = self.parser.parseString(w['css'])
+                if S.apply_op(cssutils, sheet, w['op']):
+                    self.judge(ctx, cssutils, sheet, w, self.dom_regions(cssutils, sheet), 'replay', w.get('preferences', 'default'))
+            elif data.get('kind') == 'impl-violates' and 'css' in w and 'edits_applied' not in w and 'node' not in w:
                 sheet = self.parser.parseString(w['css'])
                 regs = self.regions_of(cssutils, [w['css']], encoding=sheet.encoding)
                 self.judge(ctx, cssutils, sheet, w, regs, 'replay')
